@@ -135,8 +135,33 @@ func propC08(c *Ctx) {
 			ng++
 			c.Bad(rg, fmt.Sprintf("%s | store to global %s", fnName(fn), g.Name()), l.Pos(ins.Pos()), "run-time code stores to package-level variable "+g.Name()+": shared by every VM in the process without synchronisation")
 		})
+		// the address of a package-level variable handed to a repository
+		// function that writes through that parameter (a shared scratch value)
+		eachInstr(fn, func(ins ssa.Instruction) {
+			ci, ok := ins.(ssa.CallInstruction)
+			if !ok {
+				return
+			}
+			callee := ci.Common().StaticCallee()
+			if callee == nil || len(callee.Blocks) == 0 || !strings.HasPrefix(funcPkgPath(callee), modPath) {
+				return
+			}
+			for i, a := range ci.Common().Args {
+				g := addrOfGlobal(a)
+				if g == nil || i >= len(callee.Params) {
+					continue
+				}
+				if storesThroughParam(callee, i, 0, map[*ssa.Function]bool{}) {
+					ng++
+					c.Bad(rg, fmt.Sprintf("%s | %s written through &%s", fnName(fn), fnName(callee), g.Name()), l.Pos(ins.Pos()), "run-time code hands the address of package-level variable "+g.Name()+" to "+fnName(callee)+", which writes through it: one scratch value shared by every VM in the process without synchronisation")
+				}
+			}
+		})
 	}
 	c.Ok(rg, "run-reachable functions scanned", l.Pos(vf.Run.Pos()), fmt.Sprintf("%d functions reachable from Run scanned, %d stores to globals", len(runReach), ng))
+
+	rsl := c.Rule("syncmap-lock", "every use of the map read from a SyncMap's Value field happens while that SyncMap's lock is held", 5)
+	ruleSyncMapLock(c, rsl, nil)
 
 	// ---- mod-copy / copy-fresh / import-copy -------------------------------------------------
 	rm := c.Rule("mod-copy", "the module cache is written only by the dispatch loop's store-module arm with the Copy() of every Copier value (builtin module values are private per VM)", 1)
@@ -263,6 +288,73 @@ func rootGlobal(addr ssa.Value) *ssa.Global {
 		}
 	}
 	return nil
+}
+
+// addrOfGlobal: v is the address of a package-level variable or of a
+// component of it (no load in between).
+func addrOfGlobal(v ssa.Value) *ssa.Global {
+	for depth := 0; depth < 8; depth++ {
+		switch x := v.(type) {
+		case *ssa.Global:
+			return x
+		case *ssa.FieldAddr:
+			v = x.X
+		case *ssa.IndexAddr:
+			v = x.X
+		default:
+			return nil
+		}
+	}
+	return nil
+}
+
+// storesThroughParam: fn (or a repository function it hands the parameter's
+// address to, to depth 3) stores into memory addressed from parameter i
+// without a load in between.
+func storesThroughParam(fn *ssa.Function, i int, depth int, seen map[*ssa.Function]bool) bool {
+	if seen[fn] || depth > 3 || i >= len(fn.Params) {
+		return false
+	}
+	seen[fn] = true
+	p := fn.Params[i]
+	fromParam := func(v ssa.Value) bool {
+		for d := 0; d < 8; d++ {
+			switch x := v.(type) {
+			case *ssa.Parameter:
+				return x == p
+			case *ssa.FieldAddr:
+				v = x.X
+			case *ssa.IndexAddr:
+				v = x.X
+			default:
+				return false
+			}
+		}
+		return false
+	}
+	found := false
+	eachInstr(fn, func(ins ssa.Instruction) {
+		if found {
+			return
+		}
+		switch x := ins.(type) {
+		case *ssa.Store:
+			if fromParam(x.Addr) {
+				found = true
+			}
+		case ssa.CallInstruction:
+			callee := x.Common().StaticCallee()
+			if callee == nil || len(callee.Blocks) == 0 || !strings.HasPrefix(funcPkgPath(callee), modPath) {
+				return
+			}
+			for j, a := range x.Common().Args {
+				if fromParam(a) && storesThroughParam(callee, j, depth+1, seen) {
+					found = true
+				}
+			}
+		}
+	})
+	return found
 }
 
 // derivesOnlyFromParam: v is the parameter itself (through type changes).
@@ -558,6 +650,14 @@ func ruleEmitPair(c *Ctx, rule string) {
 
 func propC10(c *Ctx) {
 	l := c.L
+	defer func() {
+		rccf := c.Rule("const-cache-float", "the constant cache a later fragment's compiler is rebuilt with (from the session's constants) never maps 0.0 to a stored -0.0: a fragment's 0.0 literal is the same constant it would be in one script", 1)
+		ruleConstCacheFloat(c, rccf)
+		rdk := c.Rule("decl-kind-agree", "the compiler and the optimizer dispatch on the same set of declaration kinds: a `global` declaration in the same fragment as its use hides the builtin from the optimizer exactly as the session's symbol table does for a later fragment", 1)
+		ruleDeclKindAgree(c, rdk)
+		rcb := c.Rule("counter-balance", "a function that increments a nesting counter of the compiler (try depth, loop depth) decrements it again on every path to a successful return: a script compiled in one piece sees the same depths as its fragments compiled one by one", 2)
+		ruleCounterBalance(c, rcb)
+	}()
 	rt := c.Rule("thread", "Eval.Run threads the session state: the compile call receives the session's own options (symbol table, constants) and module store; the compiled constants are stored back before the run; the VM's module cache is restored from the session after the call that installs the new bytecode; Locals and ModulesCache are saved from the VM on every path after the run and before Clear; NumParams is set to NumLocals", 5)
 	vf := getVMFacts(c, rt)
 	if vf == nil {
